@@ -48,9 +48,12 @@ def run_impl(case, d):
         if all(int(g.edges[u, v]["weight"]) == 0 for u, v in g.edges):
             break           # a graph whose weights are all zero has no critical path to speak of (C08's known finding)
         try:
+            wset = {(int(u), int(v)): int(g.edges[u, v]["weight"]) for u, v in g.edges}
             ok = g.critical_path()
             s = _snapshot(g)
             s["ok"] = bool(ok)
+            # the what-if weights are the user's: recomputing the path must not alter them
+            s["weights_changed"] = [[u, v, wset[(u, v)], int(g.edges[u, v]["weight"])] for (u, v) in wset if int(g.edges[u, v]["weight"]) != wset[(u, v)]][:3]
             snaps.append(s)
         except Exception as e:
             snaps.append({"error": type(e).__name__ + ": " + str(e)[:160]})
@@ -100,6 +103,8 @@ def compare(case, impl, model):
         if "error" in s:
             disc.append(f"{which}: critical_path() raised {s['error']} {w}")
             continue
+        if s.get("weights_changed"):
+            disc.append(f"{which}: critical_path() altered the weights it was given (u, v, given, afterwards): {s['weights_changed']} {w}")
         if k > 0 and not s.get("ok", True):
             disc.append(f"{which}: critical_path() returned False")
         for j, (ok, what) in enumerate(zip(m, CHECKS)):
